@@ -15,11 +15,11 @@ from shapes import prod, fmt, fmt_lists
 
 ID = 'C14'
 LEVEL = 'proof'
-RULE = ('probe machine: every composition of a menu of 49 (1..4 functors: unary/binary/ternary probes in every position, swap/dup/dig/bury, '
-        'every parenthesisation of the 3- and 4-chains) x every split of the operand list into chunks (exact, over- and under-supplied), '
-        'attribute/operand interleavings; functors: 43 functors of array/functional (indexing, ufunc, reduce, accumulate, outer, matmul, pooling, norms, activations) '
-        'x every curry split and attribute-before/after-operand form vs the direct view, random shapes dim 1..4; extraction: 31 view trees of depth 1..4 '
-        '(operand identity by address, apply(composition, operands) vs view, compute graphs incl. aliased leaves). non-trivial = more than one functor or more than one chunk; every functor / extraction case')
+RULE = ('probe machine: every composition of a menu of 75 (1..5 functors: probes of arity 1..5 in every position, swap/dup/dig/bury left-most, in the middle and right-most, '
+        'every parenthesisation of 3- and 4-chains, (f*g)*(h*k), prebuilt composition blocks multiplied with themselves / each other / functors) x every split of the operand list into chunks '
+        '(exact, over- and under-supplied), attribute/operand interleavings for arity 1..5; functors: 43 functors of array/functional (indexing, ufunc, reduce, accumulate, outer, matmul, pooling, norms, activations) '
+        'x every curry split and attribute-before/after-operand form vs the direct view, random shapes dim 1..4; extraction: 45 view trees of depth 1..4 with the sub-view in every operand position of unary / binary / ternary nodes '
+        '(operand identity by address, static arity, apply(composition, operands) vs view, compute graphs incl. aliased leaves). non-trivial = more than one functor or more than one chunk; every functor / extraction case')
 EXHAUSTIVE = {'quick': False, 'thorough': False}
 ANCHORS = {'NmVerif.Functional.applyFn': 'functional::apply_function_t<functor_t>::operator() (functor.hpp:368-428), functor_t::operator[] / operator()',
            'NmVerif.Functional.applyComp/run': 'functional::apply_function_t<functor_composition_t>::operator() (functor.hpp:450-528)',
@@ -27,11 +27,12 @@ ANCHORS = {'NmVerif.Functional.applyFn': 'functional::apply_function_t<functor_t
            'NmVerif.Functional.swapF/dupF/digF/buryF': 'combinator::swap / dup / dig_n / bury_n (combinator.hpp)',
            'NmVerif.Functional.View.compile': 'functional::get_function_composition (function_composition.hpp:14-128)',
            'NmVerif.Functional.View.operandsOf': 'functional::get_function_operands (functor.hpp:776-812)',
+           'NmVerif.Functional.Comp.arity': 'functor_composition_t::arity (functor.hpp:134-146), demanded equal to the operand count by functional::apply (functor.hpp:833-835)',
            'NmVerif.Functional.IView.graph': 'functional::get_compute_graph (compute_graph.hpp:14-275) over utility::ct_map / ct_digraph',
            'NmVerif.Functional.generateAlias': 'index::generate_alias (index/alias.hpp:60-88)'}
 MANIFEST = dict(
-    text='Proof: Lean theorems over ARBITRARY functors (any arity, any operand/attribute types): currying in every split equals one call (curry_any_split, curry_chunks), composition = apply the right-most functor and pass the rest on (comp_apply, comp_two), parenthesisation irrelevant (comp_assoc), combinators are the stated permutations, and a compiler-correctness theorem for extraction (compile_correct/compile_frame: extracted composition applied to extracted operands = host evaluation, by induction on the view tree) on the trees where it holds — with a machine-checked counterexample outside; tied to the C++ by differential runs of the real functor machinery (probe functors), of the array/functional functors against direct view calls, and of extraction / operand identity / compute graphs on view trees.',
-    note='Lean kernel + propext/Classical.choice/Quot.sound. Node-id uniqueness of the compute graph is not a theorem (ids are hashes mod 1033 and graph-size counters): checked per explored program. Known findings: extraction is wrong when a view operand is not the first operand; compute-graph ids of sibling sub-views over un-aliased leaves collide. Repaired: dangling reference in get_function_composition (regression programs kept; ASan build in the thorough tier).',
+    text='Proof: Lean theorems over ARBITRARY functors (any arity, any operand/attribute types): currying in every split equals one call (curry_any_split, curry_chunks), composition = apply the right-most functor and pass the rest on (comp_apply, comp_two), parenthesisation irrelevant (comp_assoc), combinators are the stated permutations, and a compiler-correctness theorem for extraction (compile_correct/compile_frame: extracted composition applied to extracted operands = host evaluation, by induction on the view tree) on the trees where it holds — with a machine-checked counterexample outside — and compile_arity (the static arity of the extracted composition is the number of extracted operands for every well-formed tree, so functional::apply compiles); tied to the C++ by differential runs of the real functor machinery (probe functors), of the array/functional functors against direct view calls, and of extraction / operand identity / compute graphs on view trees.',
+    note='Lean kernel + propext/Classical.choice/Quot.sound. Node-id uniqueness of the compute graph is not a theorem (ids are hashes mod 1033 and graph-size counters): checked per explored program. Known findings: extraction is wrong when a view operand is not the first operand (also for view::softmax of the library itself; repair proposed: fixes/C14-extract.nonfirst-view-operand.diff, follow-up on branch w4/c1314-postfix); compute-graph ids of sibling sub-views over un-aliased leaves collide (no small repair: ids are part of the view type). Repaired: dangling reference in get_function_composition (regression programs kept; ASan build in the thorough tier).',
     technique='Lean 4 proofs over an abstract stack machine (compiler correctness by mutual structural induction) + differential correspondence')
 ASSUMPTIONS = ['functors are pure functions of (attributes, operands)',
                'compute-graph node ids pairwise distinct (hypothesis of graph_nodes / graph_edges; explored, not proved)']
